@@ -347,6 +347,10 @@ func runC07(w *W) {
 			for _, b := range order {
 				x, y := rep[a], rep[b]
 				in := c07Input{Name: x.Name + " ; " + y.Name, Msgs: [][]byte{x.Msgs[0], y.Msgs[0]}, Phase: "post", Class: a + "+" + b}
+				if a == "route-forged-duplicate-notice" || b == "route-forged-duplicate-notice" {
+					// the forged notice is what shuts the victim down, whatever accompanies it (known finding)
+					in.Class = "route-forged-duplicate-notice"
+				}
 				w.Case("pair "+in.Name, func() CaseOut { return runC07Input(w.T, in) })
 			}
 		}
